@@ -251,6 +251,76 @@ def run(chk, model_ok=True):
     for desc, why in c03.maxrep_histories(rng, e2e.env(), 6 if quick else 200):
         if why:
             fail(f"# {desc}", "-", f"{desc}: {why}")
+    # a request that could not be encoded (too large for the buffer) must leave nothing behind: the next message of the
+    # process — same or another session, the buffers are pooled — is encoded as if it were the first
+    from vlib import sessions
+    for _ in range(6 if quick else 100):
+        pa, pb = rng.choice([e2e.Peer("v2c"), e2e.Peer("v3", auth=1, priv=2, auth_kt="localized", priv_kt="localized")]), e2e.Peer("v2c", community="other")
+        sa, sb = sessions.Sess(e2e.env(), pa, rng), sessions.Sess(e2e.env(), pb, rng)
+        big = sa.send("getmany", [sessions.rand_oid_text(rng, long=True) for _ in range(rng.choice([9, 16, 40]))])
+        for sx in (sb, sa):
+            rec = sx.send("get", "1.3.6.1.2.1.1.1.0")
+            why = None
+            if rec["result"][0] != "ok":
+                why = f"after an oversized request ({big['result'][1] if big['result'][0] != 'ok' else 'sent'}) a plain get() failed with {rec['result'][1]}"
+            else:
+                why = c03.check_request(sx, rec, {(0, 0)})
+                if not why and len(rec["datagrams"][-1]) > 200:
+                    why = f"a plain get() produced a datagram of {len(rec['datagrams'][-1])} octets"
+            if why:
+                fail(sx.line()[:3000], str(rec["result"])[:80], f"{sx.label}: {why}")
+                break
+    # engine boots / time are INTEGERs: an agent may announce values outside 0..2^31-1 (negative, 2^32 and more); the
+    # cipher IV uses their low 32 bits on both sides, so what the session encrypts next still decrypts and decodes back
+    from props import c11
+    for bt in ((2 ** 32 + 5, 77), (3, 2 ** 32 + 9), (-1, -2), (2 ** 31, 2 ** 33 - 1), (0, 0)):
+        for priv in (1, 2):
+            pv = e2e.Peer("v3", auth=2, priv=priv, auth_kt="localized", priv_kt="localized")
+            sv = sessions.Sess(e2e.env(), pv, rng)
+            r0 = sv.send("get", "1.3.6.1.2.1.1.1.0")
+            if r0["result"][0] != "ok" or not sv.conv.req or "request_id" not in sv.conv.req:
+                continue
+            pv.state.boots, pv.state.time = bt
+            sv.recv("get", [pv.response(sv.conv.req, [ber.varbind((1, 3, 6, 1, 2, 1, 1, 1, 0), ber.INT(1))])])
+            rec = sv.send("get", "1.3.6.1.2.1.1.3.0")
+            if rec["result"][0] != "ok":
+                fail(sv.line()[:3000], str(rec["result"])[:80], f"{sv.label}: after the agent announced boots/time {bt} the next request failed: {rec['result'][1]}")
+                continue
+            why = c11.check_payload(pv.state, rec, rec["datagrams"][-1], [rec["arg"]])
+            if why:
+                fail(sv.line()[:3000], "-", f"{sv.label}: after the agent announced boots/time {bt}: {why}")
+    # walks: the name each follow-up request encodes decodes back to the name the walk is at (the last row received),
+    # whether the names get longer or shorter from row to row
+    import bisect
+    from props import c05
+    from vlib import values
+    for _ in range(40 if quick else 1500):
+        peer = rng.choice([e2e.Peer("v2c"), e2e.Peer("v1"), e2e.Peer("v3", auth=1, priv=2, auth_kt="localized", priv_kt="localized")])
+        v1 = peer.kind == "v1"
+        mib, base = c05.gen_mib(rng)
+        kind = "next" if v1 else rng.choice(["next", "bulk"])
+        maxrep, cap_ = rng.choice([1, 2, 3, 7, 20]), rng.choice([1, 2, 5, 50])
+        inner = c05.agent_replies(mib, base, kind, maxrep, cap_, v1)
+        log = []
+
+        def reply_fn(req, inner=inner, log=log):
+            rep = inner(req)
+            log.append((tuple(req["varbinds"][0][0]) if req.get("varbinds") else None, rep[1] if isinstance(rep, tuple) else rep))
+            return rep
+        c05.run_mode("raw", peer, kind, values.dotted(base), maxrep, reply_fn, e2e.env())
+        keys = [m[0] for m in mib]
+        for i in range(1, len(log)):
+            cur, last = log[i - 1][0], None
+            for _row in log[i - 1][1]:
+                j = bisect.bisect_right(keys, tuple(cur))
+                if j >= len(keys):
+                    break
+                cur = last = keys[j]
+            if last is not None and log[i][0] != tuple(last):
+                fail(f"# walk {peer.label} {kind} base={values.dotted(base)}", str(log[i][0])[:100],
+                     f"{peer.label}/{kind} walk of {values.dotted(base)}: the request after row {values.dotted(last)} decodes back as "
+                     f"{values.dotted(log[i][0]) if log[i][0] else log[i][0]}")
+                break
     st.diff("C15 encoders")
     st2.diff("C15 decode-back")
     st3.diff("C15 privenc")
